@@ -106,6 +106,59 @@ def parsePolys? (s : String) : Option (List (List Nat × List Nat × List Nat ×
     | [x, y, z, yaw, d] => do pure ((← parseDots? x), (← parseDots? y), (← parseDots? z), (← parseDots? yaw), (← d.toNat?))
     | _ => none
 
+/-! histories on one long-lived object: steps `u:<mem>` (update, both reads from <mem>), `x:<mem0>:<mem1>` (the memory
+changes after the first read), `n:<addr>:<data>` (a reply nobody asked for), `w` (write_data), `d` (disconnect) -/
+
+def showI2CObj (s : I2CObj) (called : Bool) : String :=
+  let f := match s.fields with
+    | none => "-"
+    | some (v, ch, sp, p, q) => s!"{v},{ch},{sp},{p},{q}"
+  let a := match s.address with
+    | none => "-"
+    | some a => toString a
+  s!"f={f}|a={a}|V={b01 s.valid}|C={b01 called}|P={b01 s.pending}"
+
+def parseHex2? (a b : String) : Option (Mem × Mem) := do pure ((← ofHex? a), (← ofHex? b))
+
+def i2cHist : I2CObj → List String → List String → List String
+  | _, [], acc => acc.reverse
+  | s, st :: rest, acc =>
+    let r : Option (Except PyErr (I2CObj × String)) :=
+      match st.splitOn ":" with
+      | ["u", m] => (ofHex? m).map fun m => (i2cRunUpdate s m m).map fun (s', c) => (s', showI2CObj s' c)
+      | ["x", a, b] => (parseHex2? a b).map fun (m0, m1) => (i2cRunUpdate s m0 m1).map fun (s', c) => (s', showI2CObj s' c)
+      | ["n", a, d] => (do pure ((← a.toNat?), (← ofHex? d))).map fun (a, d) =>
+          (i2cStep s (.newData a d)).map fun ((s', outs) : I2CObj × List MemOut) => (s', showI2CObj s' (outs.contains .done) ++ s!"|R={outs.length}")
+      | ["w"] => some ((i2cStep s .writeData).map fun (s', outs) =>
+          (s', match outs with | [.write _ d] => "w=" ++ toHex d | _ => "w=?"))
+      | ["d"] => some ((i2cStep s .disconnect).map fun (s', _) => (s', showI2CObj s' false))
+      | _ => none
+    match r with
+    | none => ["bad-op"]
+    | some (.error e) => (s!"E:{e}" :: acc).reverse       -- an exception ends the modelled history
+    | some (.ok (s', out)) => i2cHist s' rest (out :: acc)
+
+def showOwObj (s : OWObj) (called : Bool) : String :=
+  let o (x : Option Nat) : String := match x with | none => "-" | some n => toString n
+  let es := if s.elements.isEmpty then "-" else ",".intercalate (s.elements.map fun (k, v) => s!"{k}={toHex v}")
+  s!"p={o s.pins}|v={o s.vid}|i={o s.pid}|e={es}|V={b01 s.valid}|C={b01 called}|P={b01 s.pending}"
+
+def owHist : OWObj → List String → List String → List String
+  | _, [], acc => acc.reverse
+  | s, st :: rest, acc =>
+    let r : Option (Except PyErr (OWObj × String)) :=
+      match st.splitOn ":" with
+      | ["u", m] => (ofHex? m).map fun m => (owRunUpdate s m m).map fun (s', c) => (s', showOwObj s' c)
+      | ["x", a, b] => (parseHex2? a b).map fun (m0, m1) => (owRunUpdate s m0 m1).map fun (s', c) => (s', showOwObj s' c)
+      | ["n", a, d] => (do pure ((← a.toNat?), (← ofHex? d))).map fun (a, d) =>
+          (owStep s (.newData a d)).map fun ((s', outs) : OWObj × List MemOut) => (s', showOwObj s' (outs.contains .done) ++ s!"|R={outs.length}")
+      | ["d"] => some ((owStep s .disconnect).map fun (s', _) => (s', showOwObj s' false))
+      | _ => none
+    match r with
+    | none => ["bad-op"]
+    | some (.error e) => (s!"E:{e}" :: acc).reverse
+    | some (.ok (s', out)) => owHist s' rest (out :: acc)
+
 /-! YAML values on the wire: n | t | f | i<int>; | d<bits>; | s<hex>; | L<n>;<items> | D<n>;<key><value>... -/
 
 def takeUntilSemi (cs : List Char) : Option (String × List Char) :=
@@ -285,6 +338,8 @@ def step (_ : Unit) (ws : List String) : Unit × String :=
       match parseTimings? ts with
       | some ts => showExcept toHex (ledImage ts)
       | none => "bad-op"
+    | ["i2c_hist", steps] => "ok " ++ ";".intercalate (i2cHist I2CObj.fresh (steps.splitOn ",") [])
+    | ["ow_hist", steps] => "ok " ++ ";".intercalate (owHist OWObj.fresh (steps.splitOn ",") [])
     | ["yaml_canon", v] =>
       match parseY? v with
       | some y => "ok " ++ showY y.canon
